@@ -11,6 +11,7 @@ UNITS = {
                     'features': [], 'preds': True},
     'langid_match': {'crate': 'unic-langid-impl', 'file': 'contracts/kani/langid_match.rs', 'mod': 'verif_langid_match',
                      'features': [], 'preds': True},
+    'langid_ord': {'crate': 'unic-langid-impl', 'file': 'contracts/kani/langid_ord.rs', 'mod': 'verif_langid_ord', 'features': [], 'preds': False},
     'langid_wrap': {'crate': 'unic-langid-impl', 'file': 'contracts/kani/langid_wrap.rs', 'mod': 'verif_langid_wrap', 'features': [], 'preds': False},
     'langid_tables': {'crate': 'unic-langid-impl', 'file': 'contracts/kani/langid_tables.rs', 'mod': 'verif_langid_tables',
                       'features': ['likelysubtags'], 'preds': True, 'gen': 'likely', 'host': 'src/likelysubtags/mod.rs',
@@ -140,7 +141,7 @@ def parse_output(out, harnesses, modname):
                 desc = ln[len('Failed Checks:'):].strip()
                 loc = lines[i + 1].strip() if i + 1 < len(lines) and lines[i + 1].strip().startswith('File:') else ''
                 r['failed_checks'].append((desc + ' ' + loc).strip())
-            if ln.startswith('VERIFICATION:-'):
+            if ln.startswith('VERIFICATION:-') and r['status'] != 'resource':
                 r['status'] = 'success' if 'SUCCESSFUL' in ln else 'failed'
             m3 = re.match(r'^Verification Time: ([0-9.]+)s', ln)
             if m3:
@@ -148,11 +149,24 @@ def parse_output(out, harnesses, modname):
             if 'CBMC failed' in ln or 'out of memory' in ln.lower() or 'timed out' in ln.lower():
                 r['status'] = 'resource'
         i += 1
+    # a FAILED verdict without a single failed check is a tool failure (CBMC killed / crashed under memory pressure), not a refutation
+    for r in res.values():
+        if r['status'] == 'failed' and not r['failed_checks'] and not r.get('n_failed'):
+            r['status'] = 'resource'
     return res
 
 
 def run_unit(unit, harnesses, repo_copy, gen_text='', timeout=900, jobs=12, playback=False, mem_gb=None):
-    """Run the given harness names of one unit. Returns {harness: result}."""
+    """Run the given harness names of one unit. Returns {harness: result}.  Harnesses that ended in a tool failure
+    (CBMC killed / out of memory while many ran in parallel) are re-run once, one at a time."""
+    res = _run_unit(unit, harnesses, repo_copy, gen_text, timeout, jobs, playback)
+    again = [h for h, r in res.items() if r.get('status') == 'resource']
+    if again and not playback and len(harnesses) > 1:
+        res.update(_run_unit(unit, again, repo_copy, gen_text, timeout, 1, playback))
+    return res
+
+
+def _run_unit(unit, harnesses, repo_copy, gen_text='', timeout=900, jobs=12, playback=False):
     u = unit_def(unit)
     text = harness_text(unit, gen_text)
     declared = dict(list_harnesses(text))
